@@ -213,7 +213,7 @@ func modeWire(c *Ctx) {
 		}
 		// ---- b. JSON request bodies: echo through the parsed value
 		if op.Spec.Body != nil && op.Spec.Body.JSON {
-			dg := &DocGen{Doc: c.Doc, Rng: rng}
+			dg := &DocGen{Doc: c.Doc, Rng: rng, WithNull: true}
 			for i := 0; i < 24; i++ {
 				doc := dg.Valid(op.Spec.Body.RawSchema, 0)
 				text := EncodeDoc(doc, 0)
